@@ -161,6 +161,13 @@ def run(ctx):
         else:
             for code, msg in error_keys(err):
                 rm.violate("%s: %s" % (unit, re.sub(r"`[\w:]*::(\w+_\w+|o\d\d)::", "`<mod>::", msg)[:100]), "derive output does not compile: [%s] %s" % (code, msg))
+    # grammars that shadow built-ins and use them (fx_override; seed C11-8): the emitted names must not clash
+    try:
+        facts.load("fx_override")
+        rn.inst("fx_override compiles (grammars shadowing NEWLINE / ASCII_* / unicode classes / skip rules)", None, "ok")
+    except facts.BuildFailed as ex_:
+        first = [l for l in ex_.out.splitlines() if l.startswith("error")][:2]
+        rn.violate("fx_override", "derive output for a grammar that shadows a built-in does not compile: %s" % " | ".join(first)[:300])
     # static half: resolve every path the templates emit (universal over grammars, no fixture needed)
     from .. import tnames
     tnames.run(rn, gen, fs["pest_typed"])
